@@ -278,3 +278,15 @@ $c.18446744073709551617 = comdat any
 !n.18446744073709551617 = !{!0}
 !n.18446744073709551616 = !{!0}
 !0 = !{}
+;;; ATOM types/named-i1-branch-condition
+%bool = type i1
+define void @f(%bool %c, %bool* %p) {
+entry:
+  br i1 %c, label %a, label %b
+a:
+  %l = load %bool, %bool* %p
+  br i1 %l, label %b, label %a
+b:
+  %s = select %bool %c, i32 1, i32 2
+  ret void
+}
